@@ -188,6 +188,8 @@ def routine_cases(tier):
         for kind in ("Identity", "Diagonal"):
             for k in range(1, n + 1):
                 out.append(["ROUTINE", "svd-struct", kind, n, "f8", k])
+        for tok in ("f8", "c16"):
+            out.append(["ROUTINE", "svd-struct", "DiagonalZero", n, tok, n])
     for n in (2, 3):
         for tok in ("f8", "c16"):
             out.append(["ROUTINE", "inv-unitary", n, tok])
@@ -292,7 +294,14 @@ def observe_routine(term, seed):
             elif kind == "svd-struct":
                 _, _, sk, n, tok, k = term
                 from cola.linalg.svd.svd import svd
-                A = ops.Identity((n, n), P.dt(tok)) if sk == "Identity" else ops.Diagonal(P.diag(seed, n, tok, "mixed"))
+                if sk == "DiagonalZero":  # a singular Diagonal: exact zeros (also -0.0 / 0j) among the entries
+                    d = P.diag(seed, n, tok, "mixed").copy()
+                    d[0] = 0
+                    if n > 2:
+                        d[-1] = -0.0
+                    A = ops.Diagonal(d)
+                else:
+                    A = ops.Identity((n, n), P.dt(tok)) if sk == "Identity" else ops.Diagonal(P.diag(seed, n, tok, "mixed"))
                 U, S, V = svd(A, k, "LM")
                 outs += [("U", U), ("S", S), ("V", V)]
             elif kind == "inv-unitary":
